@@ -146,6 +146,12 @@ func (f *Fetcher) Fetch(ctx context.Context, txID ids.ID, keys []string) error {
 		f.l.Unlock()
 		return f.err
 	}
+	if _, ok := f.txs[txID]; ok {
+		// The keys of this transaction are already being fetched. Registering
+		// it again would replace the waiter other callers of [Get] hold.
+		f.l.Unlock()
+		return nil
+	}
 	var (
 		tx       = &tx{keys: keys}
 		tasks    = make([]*task, 0, len(keys))
